@@ -93,6 +93,13 @@ CLAIMED['C10'] = ('Edits.tla: edit histories chosen by TLC over generated databa
                   'the edits (caches)',
                   'trusted: TLC, pv/builder.py (fresh build), pv/project.py',
                   'DESIGN.md 5 (C10)')
+CLAIMED['C17'] = ('Invalid.tla: every history of edits up to a depth bound that makes a small universe of real objects inconsistent in one way; '
+                  'outcome class of 13 render/query calls after every edit validated by TLC against Invalid!Out (TraceInvalid.tla)',
+                  'the guards of the failure branches are the specification (Out); all routes to each bad state (constructed, set to None '
+                  'later, detached by delete_*, column moved) are enumerated exhaustively by TLC and replayed; the consistent state must '
+                  'accept every query',
+                  'trusted: TLC, the object universe in pv/c17.py; multi-defect states are observed but not judged',
+                  'DESIGN.md 2.8, 5 (C17)')
 NOT_YET = {}
 
 def main():
